@@ -805,3 +805,175 @@ Proof.
     pose proof (Hmod Hne) as Y. pose proof (Hmode Hne) as Z.
     destruct (epoll_ctl s1 CMod fd m) as [s3 e2]. cbn [fst snd] in *. subst e2. cbn. exact Y.
 Qed.
+
+(* ---- with the control ring ---------------------------------------------------------------
+   [vexec]: what an ADD/MOD entry of the ring must achieve once flushed (possibly through
+   the EEXIST -> MOD retry); [virt_ep]: the interest set after all prepared entries. *)
+Definition entry := (ctlop * Z * mask)%type.
+Definition efd (e : entry) : Z := snd (fst e).
+Definition vexec (t : Z -> option nat) (e : Z -> nat -> option mask) (ent : entry) :=
+  match t (efd ent) with Some o => ep_set e (efd ent) o (Some (snd ent)) | None => e end.
+Definition vfold (t : Z -> option nat) (l : list entry) (e : Z -> nat -> option mask) :=
+  fold_left (vexec t) l e.
+
+Lemma vexec_at t e ent x y :
+  vexec t e ent x y =
+    match t (efd ent) with
+    | Some o => if (x =? efd ent) && Nat.eqb y o then Some (snd ent) else e x y
+    | None => e x y
+    end.
+Proof. unfold vexec. destruct (t (efd ent)); reflexivity. Qed.
+
+Lemma vfold_local t l : forall e1 e2 x y, e1 x y = e2 x y -> vfold t l e1 x y = vfold t l e2 x y.
+Proof.
+  induction l as [|ent r IH]; intros e1 e2 x y H; cbn; auto.
+  apply IH. rewrite !vexec_at. destruct (t (efd ent)); auto. destruct (_ && _); auto.
+Qed.
+
+Lemma vfold_other t l : forall e x y, ~ In x (map efd l) -> vfold t l e x y = e x y.
+Proof.
+  induction l as [|ent r IH]; intros e x y H; cbn; auto.
+  cbn in H. unfold vfold in IH. rewrite IH by tauto. rewrite vexec_at. destruct (t (efd ent)); auto.
+  destruct (Z.eqb_spec x (efd ent)); auto. exfalso. apply H. left. auto.
+Qed.
+
+Lemma vfold_commute t l ent e x y : ~ In (efd ent) (map efd l) ->
+  vfold t (l ++ [ent]) e x y = vfold t (ent :: l) e x y.
+Proof.
+  intros H. unfold vfold. rewrite fold_left_app. cbn. fold (vfold t l e). fold (vfold t l (vexec t e ent)).
+  rewrite vexec_at. destruct (t (efd ent)) as [o|] eqn:Ht.
+  - destruct ((x =? efd ent) && Nat.eqb y o) eqn:Hb.
+    + apply andb_prop in Hb. destruct Hb as [H1 H2]. apply Z.eqb_eq in H1. apply Nat.eqb_eq in H2. subst.
+      rewrite vfold_other by auto. rewrite vexec_at, Ht, Z.eqb_refl, Nat.eqb_refl. reflexivity.
+    + apply vfold_local. rewrite vexec_at, Ht, Hb. reflexivity.
+  - apply vfold_local. rewrite vexec_at, Ht. reflexivity.
+Qed.
+
+Definition okent (s : state) (ent : entry) : Prop :=
+  fst (fst ent) <> CDel /\
+  exists o, fdt s (efd ent) = Some o /\ (fst (fst ent) = CMod -> ep s (efd ent) o <> None).
+
+Definition kframe (s s' : state) : Prop :=
+  hs s' = hs s /\ reg s' = reg s /\ wq s' = wq s /\ fdt s' = fdt s /\ pairs s' = pairs s /\
+  strict s' = strict s /\ ring s' = ring s.
+
+Lemma kframe_refl s : kframe s s.
+Proof. unfold kframe. split_all; reflexivity. Qed.
+Lemma kframe_trans a b c : kframe a b -> kframe b c -> kframe a c.
+Proof. unfold kframe. intros [A1 [A2 [A3 [A4 [A5 [A6 A7]]]]]] [B1 [B2 [B3 [B4 [B5 [B6 B7]]]]]]. split_all; congruence. Qed.
+
+Lemma NoDup_move {A} (x : A) l : NoDup (x :: l) -> NoDup (l ++ [x]).
+Proof. intros H. inversion H; subst. apply NoDup_app_one; auto. Qed.
+
+Lemma okent_other s ent fd o v : okent s ent -> efd ent <> fd ->
+  okent (set_ep s (ep_set (ep s) fd o v)) ent.
+Proof.
+  intros [A [o' [B C]]] Hn. split; auto. exists o'. cbn. split; auto. intros Hm. rewrite ep_set_other; auto.
+Qed.
+
+(* one round of uv__epoll_ctl_flush over the submitted entries *)
+Lemma flush_entries_spec l : forall s retry,
+  aborted s = false -> NoDup (map efd (l ++ retry)) -> (forall ent, In ent (l ++ retry) -> okent s ent) ->
+  let s' := fst (flush_entries s l retry) in
+  let retry' := snd (flush_entries s l retry) in
+  aborted s' = false /\ kframe s s' /\ NoDup (map efd retry') /\
+  (forall ent, In ent retry' -> okent s' ent) /\
+  (forall ent, In ent retry' -> In ent retry \/ fst (fst ent) = CMod) /\
+  (forall x y, vfold (fdt s) retry' (ep s') x y = vfold (fdt s) (l ++ retry) (ep s) x y).
+Proof.
+  induction l as [|[[op fd] m] r IH]; intros s retry Ha Hnd Hok; cbv zeta.
+  - cbn. split_all; auto. apply kframe_refl.
+  - cbn [flush_entries].
+    assert (Hent : okent s (op, fd, m)) by (apply Hok; left; auto).
+    destruct Hent as [Hop [o [Hf Hmod]]]. cbn in Hop, Hf, Hmod.
+    cbn [app map] in Hnd. change (efd (op, fd, m)) with fd in Hnd.
+    assert (Hsucc : forall s1, s1 = set_ep s (ep_set (ep s) fd o (Some m)) ->
+      let s' := fst (flush_entries s1 r retry) in
+      let retry' := snd (flush_entries s1 r retry) in
+      aborted s' = false /\ kframe s s' /\ NoDup (map efd retry') /\
+      (forall ent, In ent retry' -> okent s' ent) /\
+      (forall ent, In ent retry' -> In ent retry \/ fst (fst ent) = CMod) /\
+      (forall x y, vfold (fdt s) retry' (ep s') x y = vfold (fdt s) (((op, fd, m) :: r) ++ retry) (ep s) x y)).
+    { intros s1 ->. inversion Hnd as [|? ? Hnotin Hnd']; subst.
+      destruct (IH (set_ep s (ep_set (ep s) fd o (Some m))) retry) as [I1 [I2 [I3 [I4 [I5 I6]]]]]; auto.
+      - intros ent Hin. apply okent_other; [apply Hok; right; auto|].
+        intros Hx. apply Hnotin. rewrite <- Hx. apply in_map. auto.
+      - cbv zeta. split_all; auto.
+        intros x y. cbn [fdt set_ep] in I6. rewrite I6. cbn. unfold vfold. cbn.
+        apply vfold_local. unfold vexec. change (efd (op, fd, m)) with fd. rewrite Hf. reflexivity. }
+    unfold epoll_ctl. rewrite Hf.
+    destruct op; [| |congruence].
+    + destruct (ep s fd o) as [m'|] eqn:He; [|apply Hsucc; reflexivity].
+      cbn [fst snd]. rewrite EEXIST_nz. cbn. 
+      inversion Hnd as [|? ? Hnotin Hnd']; subst.
+      destruct (IH s (retry ++ [(CMod, fd, m)])) as [I1 [I2 [I3 [I4 [I5 I6]]]]]; auto.
+      * rewrite app_assoc, map_app. cbn. apply NoDup_app_one; auto. 
+      * intros ent Hin. rewrite app_assoc in Hin. apply in_app_or in Hin. destruct Hin as [Hin|[<-|[]]].
+        -- apply Hok. right. auto.
+        -- split; [discriminate|]. exists o. cbn. split; auto. intros _. congruence.
+      * cbv zeta. split_all; auto.
+        -- intros ent Hin. destruct (I5 _ Hin) as [Hx|Hx]; auto. apply in_app_or in Hx. destruct Hx as [|[<-|[]]]; auto.
+        -- intros x y. rewrite I6. rewrite app_assoc. rewrite vfold_commute.
+           ++ unfold vfold. cbn. reflexivity.
+           ++ exact Hnotin.
+    + destruct (ep s fd o) as [m'|] eqn:He; [apply Hsucc; reflexivity|]. exfalso. apply Hmod; auto.
+Qed.
+
+(* the retried entries are MODs of registrations that exist: the second round leaves nothing *)
+Lemma flush_mod_only l : forall s retry,
+  (forall ent, In ent l -> fst (fst ent) = CMod) -> NoDup (map efd l) ->
+  (forall ent, In ent l -> okent s ent) -> snd (flush_entries s l retry) = retry.
+Proof.
+  induction l as [|[[op fd] m] r IH]; intros s retry Hm Hnd Hok; cbn [flush_entries]; auto.
+  assert (op = CMod) by (apply (Hm (op, fd, m)); left; auto). subst op.
+  destruct (Hok (CMod, fd, m)) as [_ [o [Hf Hx]]]; [left; auto|]. cbn in Hf, Hx.
+  unfold epoll_ctl. rewrite Hf. destruct (ep s fd o) as [m'|] eqn:He; [|exfalso; apply Hx; auto].
+  cbn. inversion Hnd as [|? ? Hnotin Hnd']; subst. apply IH; auto.
+  - intros ent Hin. apply Hm. right; auto.
+  - intros ent Hin. apply okent_other; [apply Hok; right; auto|]. intros Hx'. apply Hnotin.
+    change (efd (CMod, fd, m)) with fd. rewrite <- Hx'. apply in_map. auto.
+Qed.
+
+(* while (sqhead != sqtail) uv__epoll_ctl_flush() *)
+Lemma ctl_flush_all_spec s :
+  aborted s = false -> NoDup (map efd (sq s)) -> (forall ent, In ent (sq s) -> okent s ent) ->
+  let s' := ctl_flush_all s in
+  aborted s' = false /\ kframe s s' /\ sq s' = [] /\
+  (forall x y, ep s' x y = vfold (fdt s) (sq s) (ep s) x y).
+Proof.
+  intros Ha Hnd Hok. cbv zeta. unfold ctl_flush_all.
+  destruct (sq s) as [|e0 l0] eqn:Hsq.
+  - split_all; auto. apply kframe_refl.
+  - rewrite <- Hsq in *. clear Hsq e0 l0.
+    unfold ctl_flush at 1 3.
+    destruct (flush_entries_spec (sq s) (set_sq s []) []) as [I1 [I2 [I3 [I4 [I5 I6]]]]];
+      try rewrite app_nil_r; auto.
+    cbv zeta in *. rewrite app_nil_r in I6. cbn [fdt ep set_sq] in I6.
+    destruct (flush_entries (set_sq s []) (sq s) []) as [s1 retry] eqn:Hfe.
+    try rewrite Hfe in I1; try rewrite Hfe in I2; try rewrite Hfe in I3; try rewrite Hfe in I4;
+      try rewrite Hfe in I5; try rewrite Hfe in I6. cbn [fst snd] in *.
+    assert (Hmods : forall ent, In ent retry -> fst (fst ent) = CMod).
+    { intros ent Hin. destruct (I5 _ Hin) as [[]|]; auto. }
+    assert (Hfr1 : kframe s s1).
+    { eapply kframe_trans; [|exact I2]. unfold kframe. split_all; reflexivity. }
+    cbn [sq set_sq]. destruct retry as [|e1 l1] eqn:Hr.
+    + split_all; auto. 
+      * destruct Hfr1 as [A1 [A2 [A3 [A4 [A5 [A6 A7]]]]]]. unfold kframe. split_all; auto.
+      * intros x y. rewrite <- I6. reflexivity.
+    + rewrite <- Hr in *. clear Hr e1 l1.
+      unfold ctl_flush. cbn [sq set_sq].
+      pose proof (flush_mod_only retry (set_sq (set_sq s1 retry) []) [] Hmods I3) as Hret.
+      destruct (flush_entries_spec retry (set_sq (set_sq s1 retry) []) []) as [J1 [J2 [J3 [J4 [J5 J6]]]]];
+        try rewrite app_nil_r; auto.
+      cbv zeta in *. rewrite app_nil_r in J6. cbn [fdt ep set_sq] in J6.
+      destruct (flush_entries (set_sq (set_sq s1 retry) []) retry []) as [s2 retry2] eqn:Hfe2.
+      try rewrite Hfe2 in Hret; try rewrite Hfe2 in J1; try rewrite Hfe2 in J2; try rewrite Hfe2 in J3;
+        try rewrite Hfe2 in J4; try rewrite Hfe2 in J5; try rewrite Hfe2 in J6. cbn [fst snd] in *.
+      rewrite Hret in * by auto.
+      assert (Hfr2 : kframe s s2).
+      { eapply kframe_trans; [exact Hfr1|]. eapply kframe_trans; [|exact J2]. unfold kframe. split_all; reflexivity. }
+      split_all; auto.
+      * destruct Hfr2 as [A1 [A2 [A3 [A4 [A5 [A6 A7]]]]]]. unfold kframe. split_all; auto.
+      * intros x y. cbn [vfold fold_left] in J6. unfold vfold in J6 at 1. cbn in J6. rewrite J6.
+        destruct Hfr1 as [_ [_ [_ [A4 _]]]]. rewrite A4. apply I6.
+Qed.
